@@ -192,14 +192,23 @@ fn worker(args: &WorkerArgs, progs: &[Prog]) -> ShardStats {
     for f in ["cancel_at_poll", "duplicate_assertion", "equate_between_closes", "alias_nonroot_argument", "late_assertion_after_close"] {
         stats.declare_fault(f);
     }
-    for p in ["closes_completed", "closes_cancelled", "budget_hit_runs", "new_elements_by_close", "polls"] {
+    // rare-branch probes that this property's workload is expected to reach
+    let expected: &[&str] = match prop {
+        "C06" => &["closes_completed", "closes_cancelled", "polls"],
+        "C16" => &["polls"],
+        "C19" => &[],
+        "C02" | "C03" => &["closes_completed", "new_elements_by_close", "polls"],
+        "C17" | "C18" => &["closes_completed", "closes_cancelled", "polls"],
+        _ => &["closes_completed", "closes_cancelled", "budget_hit_runs", "new_elements_by_close", "polls"],
+    };
+    for p in expected {
         stats.declare_probe(p);
     }
     if matches!(prop, "C02" | "C03" | "C07" | "C16" | "C17" | "C18") {
         multi_props::worker(args, progs, &mut stats);
         return stats;
     }
-    let per_prog: u64 = if prop == "C19" { 0 } else { args.get_u64("runs", if thorough { 5000 } else { 1200 }) };
+    let per_prog: u64 = if prop == "C19" { 0 } else { args.get_u64("runs", if thorough { 5000 } else { 600 }) };
     let eligible: Vec<usize> = (0..progs.len())
         .filter(|i| progs[*i].model.is_none())
         .filter(|i| match prop {
